@@ -28,18 +28,43 @@ structure WorkOk (σ : Static) (e : EnvSt) (q : WQ) (w : Work) : Prop where
   gfresh : ∀ g ∈ w.groups, g ∉ e.introG
   sfresh : ∀ s ∈ w.streams, s ∉ e.introS
   noself : ∀ g ∈ w.groups, ∀ p, σ.parent g = some p → p ≠ g
+  plt : ∀ g ∈ w.groups, ∀ p, σ.parent g = some p → p < g
 
 theorem nodupB_iff (xs : List Nat) : nodupB xs = true ↔ xs.Nodup := by
   induction xs with
   | nil => simp [nodupB]
   | cons x r ih => simp [nodupB, ih, List.nodup_cons]
 
+/-- E2: the parent of a new group is in the same work or in the graph. -/
+theorem workOk_parent (σ : Static) (e : EnvSt) (q : WQ) (pr : Option Nat) (w : Work)
+    (h : workOk σ e q pr w = true) :
+    ∀ g ∈ w.groups, ∀ p, σ.parent g = some p → p ∈ w.groups ∨ hasNode q p := by
+  unfold workOk at h
+  simp only [Bool.and_eq_true, List.all_eq_true, Bool.not_eq_true', nodupB_iff] at h
+  obtain ⟨⟨_, h7⟩, _⟩ := h
+  intro g hg p hp
+  have := h7 g hg
+  rw [hp] at this
+  simp only [Bool.and_eq_true, decide_eq_true_eq, Bool.or_eq_true, List.contains_iff_mem] at this
+  rcases this.2 with h | h
+  · exact Or.inl h
+  · right
+    cases hl : alookup q.groupNodes p with
+    | none => rw [hl] at h; simp at h
+    | some n => exact ⟨n, hl⟩
+
 theorem workOk_of (σ : Static) (e : EnvSt) (q : WQ) (pr : Option Nat) (w : Work)
     (h : workOk σ e q pr w = true) : WorkOk σ e q w := by
   unfold workOk at h
   simp only [Bool.and_eq_true, List.all_eq_true, Bool.not_eq_true', nodupB_iff] at h
   obtain ⟨⟨⟨⟨⟨⟨⟨h1, _⟩, h3⟩, h4⟩, _⟩, h6⟩, h7⟩, _⟩ := h
-  refine ⟨h1, h3, ?_, ?_, ?_⟩
+  have hpar : ∀ g ∈ w.groups, ∀ p, σ.parent g = some p → p < g := by
+    intro g hg p hp
+    have := h7 g hg
+    rw [hp] at this
+    simp only [Bool.and_eq_true, decide_eq_true_eq] at this
+    exact this.1
+  refine ⟨h1, h3, ?_, ?_, ?_, ?_⟩
   · intro g hg hm
     have := h4 g hg
     simp [hm] at this
@@ -47,10 +72,8 @@ theorem workOk_of (σ : Static) (e : EnvSt) (q : WQ) (pr : Option Nat) (w : Work
     have := h6 s hs
     simp [hm] at this
   · intro g hg p hp
-    have := h7 g hg
-    rw [hp] at this
-    simp only [Bool.and_eq_true, bne_iff_ne, ne_eq] at this
-    exact this.1
+    exact Nat.ne_of_lt (hpar g hg p hp)
+  · intro g hg p hp; exact hpar g hg p hp
 
 /-- The group part of `_maybe_integrate_work`. -/
 theorem addGroups_good (σ : Static) (e : EnvSt) (q : WQ) (w : Work) (hpt : Bool)
